@@ -12,22 +12,33 @@
 (* `inspect`: the caller looks at each new element (its xpath) BEFORE      *)
 (* attaching it - an observation that must not change any later render.    *)
 (***************************************************************************)
+(* AddRef(n) (C03): the caller adds a calculation that refers to ${n}.  At *)
+(* every render each referenced name must name exactly one element of the  *)
+(* tree as it is THEN (not as it was at the first render): otherwise the   *)
+(* render is refused; when it succeeds the reference is the path of the    *)
+(* element that carries the name now.                                      *)
 EXTENDS Naturals, Sequences, FiniteSets, TLC
-CONSTANTS Names, MaxOps
-VARIABLES root, grp, hist, last, inspect, marked
-svars == <<root, grp, hist, last, inspect, marked>>
-SOInit == root = <<"q0">> /\ grp = <<"g0">> /\ hist = <<>> /\ last = "none" /\ inspect \in BOOLEAN /\ marked = FALSE
+CONSTANTS Names, MaxOps, WithRefs
+VARIABLES root, grp, hist, last, inspect, marked, refs
+svars == <<root, grp, hist, last, inspect, marked, refs>>
+SOInit == root = <<"q0">> /\ grp = <<"g0">> /\ hist = <<>> /\ last = "none" /\ inspect \in BOOLEAN /\ marked = FALSE /\ refs = <<>>
 Dup(s) == \E i, j \in 1..Len(s) : i # j /\ s[i] = s[j]
 \* the group itself is a child of the root named "grp"
 Ambiguous == Dup(root \o <<"grp">>) \/ Dup(grp)
-AddRoot(n) == Len(hist) < MaxOps /\ root' = Append(root, n) /\ hist' = Append(hist, <<"add_root", n>>) /\ UNCHANGED <<grp, last, inspect, marked>>
-AddGroup(n) == Len(hist) < MaxOps /\ grp' = Append(grp, n) /\ hist' = Append(hist, <<"add_group", n>>) /\ UNCHANGED <<root, last, inspect, marked>>
-Mark == Len(hist) < MaxOps /\ ~marked /\ marked' = TRUE /\ hist' = Append(hist, <<"mark", "q0">>) /\ UNCHANGED <<root, grp, last, inspect>>
-Render == Len(hist) < MaxOps /\ last' = (IF Ambiguous THEN "rejected" ELSE "ok") /\ hist' = Append(hist, <<"render", last'>>) /\ UNCHANGED <<root, grp, inspect, marked>>
-SONext == (\E n \in Names : AddRoot(n) \/ AddGroup(n)) \/ Mark \/ Render
+AddRoot(n) == Len(hist) < MaxOps /\ root' = Append(root, n) /\ hist' = Append(hist, <<"add_root", n>>) /\ UNCHANGED <<grp, last, inspect, marked, refs>>
+AddGroup(n) == Len(hist) < MaxOps /\ grp' = Append(grp, n) /\ hist' = Append(hist, <<"add_group", n>>) /\ UNCHANGED <<root, last, inspect, marked, refs>>
+Mark == Len(hist) < MaxOps /\ ~marked /\ marked' = TRUE /\ hist' = Append(hist, <<"mark", "q0">>) /\ UNCHANGED <<root, grp, last, inspect, refs>>
+\* how many elements of the whole tree carry the name n (references are by bare name, whatever the section)
+Count(n) == Cardinality({i \in 1..Len(root) : root[i] = n}) + Cardinality({i \in 1..Len(grp) : grp[i] = n})
+RefBroken == \E i \in 1..Len(refs) : Count(refs[i]) # 1
+TargetPath(n) == IF \E i \in 1..Len(root) : root[i] = n THEN <<n>> ELSE <<"grp", n>>
+AddRef(n) == WithRefs /\ Len(hist) < MaxOps /\ Len(refs) < 2 /\ refs' = Append(refs, n) /\ hist' = Append(hist, <<"add_ref", n>>) /\ UNCHANGED <<root, grp, last, inspect, marked>>
+Render == Len(hist) < MaxOps /\ last' = (IF Ambiguous \/ RefBroken THEN "rejected" ELSE "ok") /\ hist' = Append(hist, <<"render", last'>>) /\ UNCHANGED <<root, grp, inspect, marked, refs>>
+SONext == (\E n \in Names : AddRoot(n) \/ AddGroup(n) \/ AddRef(n)) \/ Mark \/ Render
 SOSpec == SOInit /\ [][SONext]_svars
 \* an accepted render implies an unambiguous tree at that moment (the history does not matter)
 AcceptedMeansUnambiguous == (Len(hist) > 0 /\ hist[Len(hist)][1] = "render" /\ hist[Len(hist)][2] = "ok") => ~Ambiguous
+AcceptedMeansReferencesResolve == (Len(hist) > 0 /\ hist[Len(hist)][1] = "render" /\ hist[Len(hist)][2] = "ok") => ~RefBroken
 \* the elements whose bind carries the attribute given by Mark: the base question alone
 MarkedPaths == IF marked THEN {<<"q0">>} ELSE {}
 =============================================================================
